@@ -127,6 +127,12 @@ func (w *watches) updatePath(path string, f func(*watch) (*watch, error)) error 
 		if upd.wd != wd {
 			delete(w.wd, wd)
 		}
+		if ok && upd.path != path {
+			// f returned the watch of another path: this path was re-pointed
+			// (e.g. a symlink that changed target) to a file that is already
+			// watched, so it no longer has a watch of its own.
+			delete(w.path, path)
+		}
 	}
 
 	return nil
